@@ -1282,6 +1282,14 @@ class FileSet:
                 end, self._get_time_resolution(subdir_chunk)[0]
             )
 
+            # A level without temporal placeholders (e.g. a user-defined
+            # placeholder or a wildcard below the day level) has no time
+            # coverage of its own that could be compared with the period:
+            is_temporal = bool(
+                set(re.findall(r"{(\w+)}", subdir_chunk))
+                & set(self._time_placeholder)
+            )
+
             # compile the regex for this sub directory:
             regex = self._fill_placeholders(
                 subdir_chunk, extra_placeholder=white_list, compile=True
@@ -1290,7 +1298,8 @@ class FileSet:
                 (new_dir, attr)
                 for search_dir in search_dirs
                 for new_dir, attr in self._get_matching_dirs(search_dir, regex)
-                if self._check_placeholders(attr, start_check, end_check)
+                if not is_temporal
+                or self._check_placeholders(attr, start_check, end_check)
             ]
 
         return search_dirs
